@@ -201,6 +201,7 @@ func RunC17(c *Ctx) error {
 	switchFunc := map[string]int{}
 	raceReports := 0
 	var samples []interface{}
+	shrunk := map[string]int{}
 	for _, b := range batches {
 		blocks := raceBlocks(b.out.RaceLog)
 		harnessOnly := 0
@@ -233,9 +234,14 @@ func RunC17(c *Ctx) error {
 				samples = append(samples, map[string]interface{}{"grammar": b.drv.Grammar.ID, "variant": job.Variant, "tasks": job.Tasks, "schedule": job.Schedule, "steps": r.Steps, "context_switches": r.Switches, "trace_hash": r.TraceHash})
 			}
 			for _, v := range r.Violations {
-				c.Report(&Violation{Class: v.Class, Key: map[string]string{"grammar": b.drv.Grammar.ID}, Size: len(job.Tasks),
-					Detail: fmt.Sprintf("%s/%s knob=%d %d tasks schedule=%s: %s", b.drv.Grammar.ID, job.Variant, job.Knob, len(job.Tasks), job.Schedule.Policy, v.Detail),
-					Plan:   c17Replay{Grammar: b.drv.Grammar.ID, Job: job}})
+				min := job
+				if gk := v.Class + "|" + b.drv.Grammar.ID; shrunk[gk] < 1 {
+					shrunk[gk]++
+					min = c17Shrink(c, b.drv, job, v.Class)
+				}
+				c.Report(&Violation{Class: v.Class, Key: map[string]string{"grammar": b.drv.Grammar.ID}, Size: c17Size(min),
+					Detail: fmt.Sprintf("%s/%s knob=%d %d tasks (%d operations) schedule=%s cold=%v: %s", b.drv.Grammar.ID, min.Variant, min.Knob, len(min.Tasks), c17Size(min), min.Schedule.Policy, min.Cold, v.Detail),
+					Plan:   c17Replay{Grammar: b.drv.Grammar.ID, Job: min}})
 			}
 			if r.Race {
 				raceReports++
@@ -245,9 +251,14 @@ func RunC17(c *Ctx) error {
 				} else if len(blocks) > 0 {
 					sum = raceSummary(blocks[0])
 				}
-				c.Report(&Violation{Class: "data-race", Key: map[string]string{"grammar": b.drv.Grammar.ID}, Size: len(job.Tasks),
-					Detail: fmt.Sprintf("%s/%s %d tasks schedule=%s: the race detector reports an unsynchronised access in generated code: %s", b.drv.Grammar.ID, job.Variant, len(job.Tasks), job.Schedule.Policy, sum),
-					Plan:   c17Replay{Grammar: b.drv.Grammar.ID, Job: job}})
+				min := job
+				if gk := "data-race|" + b.drv.Grammar.ID; shrunk[gk] < 1 {
+					shrunk[gk]++
+					min = c17Shrink(c, b.drv, job, "data-race")
+				}
+				c.Report(&Violation{Class: "data-race", Key: map[string]string{"grammar": b.drv.Grammar.ID}, Size: c17Size(min),
+					Detail: fmt.Sprintf("%s/%s %d tasks (%d operations) schedule=%s cold=%v: the race detector reports an unsynchronised access in generated code: %s", b.drv.Grammar.ID, min.Variant, len(min.Tasks), c17Size(min), min.Schedule.Policy, min.Cold, sum),
+					Plan:   c17Replay{Grammar: b.drv.Grammar.ID, Job: min}})
 			}
 		}
 		if b.out.Crash != "" {
@@ -295,4 +306,85 @@ func RunC17(c *Ctx) error {
 		"schedules are sampled; preemption happens only at inserted yield points (function entries and loop heads of generated code)",
 		"input buffers are not shared between tasks",
 	})
+}
+
+func c17Size(j harness.Job) int {
+	n := 0
+	for _, t := range j.Tasks {
+		n += len(t.Ops)
+	}
+	return n
+}
+
+// c17Shrink looks for a smaller plan that still shows a violation of the same
+// class: the plain sequential schedule (a race report does not need an unlucky
+// interleaving), fewer tasks, fewer operations per task.  Every candidate runs
+// in a process of its own (cold-start plans depend on that).
+func c17Shrink(c *Ctx, drv *sut.Driver, job harness.Job, class string) harness.Job {
+	fails := func(j harness.Job) bool {
+		j.ID = 0
+		out, err := runBatch(c, drv, []harness.Job{j}, true, 5*time.Minute)
+		if err != nil || out.Crash != "" || len(out.Results) != 1 {
+			return false
+		}
+		r := out.Results[0]
+		if class == "data-race" {
+			return r.Race
+		}
+		for _, v := range r.Violations {
+			if v.Class == class {
+				return true
+			}
+		}
+		return false
+	}
+	cur := job
+	if cur.Schedule.Policy != "preempt" || len(cur.Schedule.Points)+len(cur.Schedule.Permille) > 0 {
+		cand := cur
+		cand.Schedule = gsim.Schedule{Policy: "preempt"}
+		if fails(cand) {
+			cur = cand
+		}
+	}
+	for round := 0; round < 12; round++ {
+		progress := false
+		for i := 0; len(cur.Tasks) > 2 && i < len(cur.Tasks); i++ {
+			cand := cur
+			cand.Tasks = append(append([]harness.TaskSpec{}, cur.Tasks[:i]...), cur.Tasks[i+1:]...)
+			if cand.Schedule.Starve > len(cand.Tasks) {
+				cand.Schedule.Starve = 0
+			}
+			if fails(cand) {
+				cur = cand
+				progress = true
+				break
+			}
+		}
+		if progress {
+			continue
+		}
+		for ti := range cur.Tasks {
+			for oi := range cur.Tasks[ti].Ops {
+				if len(cur.Tasks[ti].Ops) <= 1 {
+					break
+				}
+				cand := cur
+				cand.Tasks = append([]harness.TaskSpec{}, cur.Tasks...)
+				ops := append(append([]harness.Op{}, cur.Tasks[ti].Ops[:oi]...), cur.Tasks[ti].Ops[oi+1:]...)
+				cand.Tasks[ti] = harness.TaskSpec{Ops: ops}
+				if fails(cand) {
+					cur = cand
+					progress = true
+					break
+				}
+			}
+			if progress {
+				break
+			}
+		}
+		if !progress {
+			break
+		}
+	}
+	return cur
 }
